@@ -117,7 +117,7 @@ def run_case(case):
 
 @st.composite
 def cases(draw):
-    base = draw(cfggen.base_config(nmin=16, nmax=48, min_laststep=10, max_laststep=40))
+    base = draw(cfggen.base_config(nmin=16, nmax=48, min_laststep=10, max_laststep=40, big=24, via_rev=6))
     d = cfggen.derive(base)
     L = d["laststep"]
 
